@@ -7,6 +7,8 @@
    cancellations, failures and clock advances. *)
 From Coq Require Import List Arith NArith Bool.
 Import ListNotations.
+Require Aiuti.Keys.
+Require Import Aiuti.CacheSeq.   (* first: its store relation `Rel` must not shadow the event `Rel` *)
 Require Import Aiuti.Cache Aiuti.CacheLemmas Aiuti.CacheInv Aiuti.CacheInv2 Aiuti.CacheMon Aiuti.CacheMon1.
 Require Import Aiuti.CacheMonSpec Aiuti.CacheUnfixed.
 
@@ -116,6 +118,29 @@ Theorem single_flight_refuted_without_fix1 :
     /\ ok_C01 tbl_F1 tr = false.
 Proof. exact single_flight_refuted_without_fix1_l. Qed.
 Print Assumptions single_flight_refuted_without_fix1.
+
+(* LINK TO C14.  In the sequential regime of C14 (one loop, the calls run one after the other; key ids
+   ks) the concurrent model IS C14's sequential cache (Keys.v, retaining user mapping): the model
+   accepts the sequential run, the same calls invoke the wrapped function in both models, and the
+   value returned here (an invocation id v) and the tag returned there (a call index t) denote the
+   same invocation: the v-th invocation of the run was performed by call t.  So C14's theorems
+   about keys and C01/C06's about concurrency are about one and the same object.
+   (CacheSeq.seq_call_cache_spec is the analogue of C14's seq_call_spec from any idle state.) *)
+Theorem seq_run_accepted :
+  forall ks, accepts 1 (map (fun k => (0, k)) ks) (seq_trace ks ++ [LoopEv 0 0; End 0]) = true.
+Proof. exact seq_accepts. Qed.
+Print Assumptions seq_run_accepted.
+
+Theorem seq_call_refines_keys :
+  forall ks,
+    map fst (seq_outcomes ks) =
+    map (fun o => fst (fst o))
+        (Keys.run Keys.spec_expr Keys.IfNotNone (Keys.KUser None) false
+                  (map (fun k => Keys.Call (Keys.mksig [k] [])) ks))
+    /\ Forall2 (fun o ob => nth_error (miss_tags (krun ks)) (snd o) = Some (snd (fst ob)))
+               (seq_outcomes ks) (krun ks).
+Proof. exact (fun ks => conj (CacheSeq.seq_call_refines_keys ks) (seq_same_invocation ks)). Qed.
+Print Assumptions seq_call_refines_keys.
 
 (* the monitor is not trivially true: it rejects two overlapping invocations of one key, an
    invocation after a success, and a returned value that is not the successful result *)
